@@ -67,7 +67,9 @@ def subgradient_ok(P, gx):
     if one_d:
         x, up, gx = x[:, :, None, :], up[:, :, None, :], gx[:, :, None, :]
     xp = cc._pad(x, g, -np.inf)
-    lH, lW = up.shape[2], up.shape[3]
+    lH = cc.out_size(g["H"], g["kH"], g["sH"], g["pH"], g["dH"]); lW = cc.out_size(g["W"], g["kW"], g["sW"], g["pW"], g["dW"])
+    if up.shape[2:] != (lH, lW) or gx.shape != x.shape:
+        return False
     allowed = np.zeros_like(xp, dtype=bool)
     total = 0.0
     for i in range(lH):
@@ -122,7 +124,7 @@ def run_part_c02(ctx):
                 pass
     ctx.sample({"backward_case": {k: v for k, v in payloads[3].items()}, "coq_term": terms[3][:400]})
     bad, errors = cc.run_bool_cases(ctx, "bwd", terms)
-    mism = list(errors) + [{"case": i, "input": payloads[i]} for i in bad[:50]]
+    mism = list(errors) + [{"case": i, "input": payloads[i]} for i in bad[:50]] + [{"case": i} for i in bad[50:]]
     ctx.tie("convpool/backward kernels (x, weight, bias gradients)", "correspondence", len(terms), len(nontriv), mism, exhaustive=True,
             note="same geometry grid as C06 (%d 2-D, %d 1-D geometries) x ops; distinct integer upstream gradients (multiples of the kernel size for the "
                  "average pools); every fourth max-pool geometry has repeated values (ties: the model must put the gradient on the first maximum)" % (n2, n1))
@@ -252,7 +254,7 @@ def run_part_c14(ctx):
                 verdicts.append((len(terms) - 1, {"expected": "fused == composition (%s)" % diff["what"], "observed": diff, "note": "identity fails on the implementation"}))
     ctx.sample({"identity_case": payloads[0], "coq_term": terms[0][:300]})
     bad, errors = cc.run_bool_cases(ctx, "fused", terms)
-    mism = list(errors) + [{"case": i, "input": payloads[i]} for i in bad[:50]]
+    mism = list(errors) + [{"case": i, "input": payloads[i]} for i in bad[:50]] + [{"case": i} for i in bad[50:]]
     ctx.tie("convpool/fused = composition (conv = unfold @ matmul, pool = unfold -> max|mean)", "correspondence", len(terms), len(nontriv), mism,
             exhaustive=True,
             note="%d 2-D geometries x {conv2d, max_pool2d, avg_pool2d}: the composition computed with synapgrad's own ops vs the model's composition, the fused op "
